@@ -74,6 +74,9 @@ impl Config {
 /// Reference: (position, exact f64 score, abs-sum, f32 sequential sum) for all valid positions.
 struct Oracle {
     exact: Vec<(f64, f64)>,
+    /// the row-order f32 sum of every position: what every scoring path of the library returns bit for bit
+    /// (C01 checks the identity across configurations and against the exact sum); the scanner decides on it
+    f32sum: Vec<f32>,
     m: usize,
 }
 
@@ -84,6 +87,7 @@ impl Oracle {
         let valid = if l >= m { l - m + 1 } else { 0 };
         Oracle {
             exact: (0..valid).map(|i| model::ref_score(&cfg.matrix, &cfg.seq, i)).collect(),
+            f32sum: (0..valid).map(|i| model::ref_score_f32(&cfg.matrix, &cfg.seq, i)).collect(),
             m,
         }
     }
@@ -92,6 +96,9 @@ impl Oracle {
         let (ex, ab) = self.exact[i];
         if ex == f64::NEG_INFINITY {
             return Some(false);
+        }
+        if STRICT.with(|x| x.get()) {
+            return Some(self.f32sum[i] >= t);
         }
         let b = model::sum_bound(self.m, ab) + ex.abs() * 2f64.powi(-24);
         if ex - b >= t as f64 {
@@ -104,6 +111,11 @@ impl Oracle {
     }
 }
 
+thread_local! {
+    /// Decide hits on the row-order f32 sum exactly (no rounding zone around the threshold).
+    static STRICT: std::cell::Cell<bool> = const { std::cell::Cell::new(true) };
+}
+
 pub enum After {
     /// drive next() to exhaustion
     Exhaust,
@@ -111,6 +123,9 @@ pub enum After {
     Max(usize),
     /// k × next(), then `threshold(t2)` on the SAME scanner, then next() to exhaustion
     Rethreshold(usize, f32),
+    /// k × next(), then the best remaining hit asked through the ITERATOR interface: `scanner.by_ref().max()`
+    /// (`Iterator::max` on `&mut Scanner`, which ranks hits by `Ord for Hit` and not by `Scanner::max`)
+    MaxByRef(usize),
 }
 
 pub struct RunOut {
@@ -186,6 +201,17 @@ pub fn run_scanner(cfg: &Config, after: &After) -> Result<RunOut, String> {
                         }
                     }
                 }
+                After::MaxByRef(k) => {
+                    for _ in 0..*k {
+                        out.calls += 1;
+                        match sc.next() {
+                            Some(h) => out.hits.push((h.position(), h.score())),
+                            None => break,
+                        }
+                    }
+                    out.calls += 1;
+                    out.max = Some(sc.by_ref().max().map(|h| (h.position(), h.score())));
+                }
                 After::Max(k) => {
                     for _ in 0..*k {
                         out.calls += 1;
@@ -224,6 +250,9 @@ pub fn judge_hits(cfg: &Config, or: &Oracle, out: &RunOut) -> Result<(), (String
         let (ex, ab) = or.exact[p];
         if !model::score_ok(s, ex, ab, or.m) {
             return Err(("wrong score".into(), format!("hit at position {} carries score {} but the exact score is {}", p, s, ex)));
+        }
+        if STRICT.with(|x| x.get()) && !(s == or.f32sum[p]) {
+            return Err(("hit score differs from the row-order sum".into(), format!("hit at position {} carries score {:?} but every scoring path returns the row-order f32 sum {:?}", p, s, or.f32sum[p])));
         }
         if or.must(p, cfg.threshold) == Some(false) {
             return Err(("hit below threshold".into(), format!("position {} scoring {} yielded with threshold {}", p, ex, cfg.threshold)));
@@ -505,6 +534,37 @@ impl<'a> Sink<'a> {
                     v.dedup();
                     v
                 };
+                // the same question asked through the iterator interface (Ord for Hit), for a few prefixes
+                for &k in &[0usize, 1, nhits / 2] {
+                    if k > nhits {
+                        continue;
+                    }
+                    self.rep.eval_distinct(nontrivial);
+                    match run_scanner(cfg, &After::MaxByRef(k)) {
+                        Err(p) => self.rep.violation(
+                            format!("{} {} by_ref().max() panic {}", pid, cfgs::arm_name(cfg.arm), vx_core::util::panic_class(&p)),
+                            format!("panic: {} (k={}, L={}, M={}, block={}, threshold={})", p, k, cfg.seq.len(), cfg.matrix.len(), cfg.block, cfg.threshold),
+                            || {
+                                let mut j = cfg.json();
+                                j["k"] = json!(k);
+                                j["by_ref"] = json!(true);
+                                j
+                            },
+                        ),
+                        Ok(out) => {
+                            self.transitions += out.calls as u64;
+                            self.states += 1;
+                            if let Err((sig, msg)) = judge_max(cfg, or, &out) {
+                                self.rep.violation(format!("{} {} by_ref().max() {}", pid, cfgs::arm_name(cfg.arm), sig), format!("after {} next() calls, scanner.by_ref().max(): {}", k, msg), || {
+                                    let mut j = cfg.json();
+                                    j["k"] = json!(k);
+                                    j["by_ref"] = json!(true);
+                                    j
+                                });
+                            }
+                        }
+                    }
+                }
                 for k in ks {
                     self.rep.eval_distinct(nontrivial);
                     match run_scanner(cfg, &After::Max(k)) {
@@ -820,7 +880,7 @@ pub fn run_c02(ctx: &mut Ctx, rep: &mut Report) {
 
 pub fn run_c03(ctx: &mut Ctx, rep: &mut Report) {
     sweep(Mode::C03, ctx, rep);
-    rep.note("every history next^k . max for k = 0..=#hits+1 (all k when #hits <= 40, else {0,1,2,3,h/3,h/2,h-1,h,h+1}) is re-executed on a fresh scanner");
+    rep.note("every history next^k . max for k = 0..=#hits+1 (all k when #hits <= 40, else {0,1,2,3,h/3,h/2,h-1,h,h+1}) is re-executed on a fresh scanner; for k in {0, 1, #hits/2} the best hit is also asked through the iterator interface (scanner.by_ref().max(), ranking by Ord for Hit); hits are decided on the row-order f32 sum exactly (every scoring path of the library returns it bit for bit, checked by C01/C02)");
 }
 
 pub fn replay_c02(_ctx: &mut Ctx, rep: &mut Report, v: &Value) {
@@ -857,6 +917,17 @@ pub fn replay_c03(_ctx: &mut Ctx, rep: &mut Report, v: &Value) {
     let or = Oracle::new(&cfg);
     let k = v["k"].as_u64().unwrap_or(0) as usize;
     rep.eval_distinct(true);
+    if v["by_ref"].as_bool() == Some(true) {
+        match run_scanner(&cfg, &After::MaxByRef(k)) {
+            Err(p) => rep.violation(format!("C03 {} by_ref().max() panic {}", cfgs::arm_name(cfg.arm), vx_core::util::panic_class(&p)), format!("panic: {}", p), || cfg.json()),
+            Ok(out) => {
+                if let Err((sig, msg)) = judge_max(&cfg, &or, &out) {
+                    rep.violation(format!("C03 {} by_ref().max() {}", cfgs::arm_name(cfg.arm), sig), format!("after {} next() calls, scanner.by_ref().max(): {}", k, msg), || cfg.json());
+                }
+            }
+        }
+        return;
+    }
     match run_scanner(&cfg, &After::Max(k)) {
         Err(p) => rep.violation(format!("C03 {} panic {}", cfgs::arm_name(cfg.arm), vx_core::util::panic_class(&p)), format!("panic: {}", p), || cfg.json()),
         Ok(out) => {
